@@ -239,8 +239,20 @@ class World:
                 told = [c for c in before_waiting if c not in self.waiting
                         and self.results.get(c) == 'err']
                 left = [c for c in before_waiting if c in self.waiting]
-                if told and left and not any(
-                        d == fdb for d, _f in self.pend_c):
+                # ... or a connection to that database is open (a connect
+                # that succeeded in the same batch of events): those
+                # requests are served, not failed
+                have_conn = any(
+                    st == 'open' and c[1] == fdb
+                    for c, st in self.state.items())
+                if told and left and not have_conn and not any(
+                        d == fdb for d, _f in self.pend_c) \
+                        and not any(st == 'closing'
+                                    for st in self.state.values()):
+                    # (with a disconnect in flight the pool is in the
+                    # middle of a transfer / discard and may yet open a
+                    # connection for the requests that re-queued after
+                    # finding theirs gone: the fair completion decides)
                     self.live_viol = (
                         'retry-exhaustion-not-reported',
                         'connect failure exhausted its retries and was '
